@@ -59,7 +59,7 @@ def record_and_judge(ctx: Ctx, jobs, *, torn: int, reader_every: int, tag: str, 
             args.append({"root": byjob[lj]["root"], "events": byjob[lj]["events"], "fmt": job["fmt"],
                          "compression": job["compression"], "hashes": job["hashes"], "torn": torn,
                          "reader_every": reader_every if job["fmt"] != "tfrec" else max(reader_every, 3),
-                         "final_checks": job.get("final_checks")})
+                         "final_checks": job.get("final_checks"), "recover_every": job.get("recover_every", 0)})
             owners.append(gj)
     outs = H.run_histories(args, fn=crash.judge_job)
     return {gj: o for gj, o in zip(owners, outs)}, driver
@@ -82,6 +82,8 @@ def run(ctx: Ctx) -> None:
           ("crash_streaming", c(Splits=FS({"train"}), Atomic=False, CrashOn=True, Streaming=True,
                                 FillerDirs=FS({()}), MaxSessions=2, MaxWrites=3, MaxK=1,
                                 Kinds=FS({"good", "badlate"})))]
+    mc.append(("crash_then_recovery", c(Splits=FS({"train"}), Atomic=False, CrashOn=True, MaxCrashes=1,
+                                        FillerDirs=FS({(), ("s",)}), MaxSessions=2 if q else 3, MaxWrites=2, MaxK=1)))
     if not q:
         mc += [("crash_2sessions_3writes", c(Splits=FS({"train"}), Atomic=False, CrashOn=True,
                                              FillerDirs=FS({(), ("s",)}), MaxSessions=2, MaxWrites=3, MaxK=2)),
@@ -125,6 +127,8 @@ def run(ctx: Ctx) -> None:
     for name, cc, num, targets in sims:
         _res, behs = H.simulate(ctx, name, cc, num=num, depth=40, seed=ctx.seed + 3)
         jobs += _jobs_from_behaviours(behs, targets)
+    for j in jobs:
+        j["recover_every"] = 9 if q else 4
     ctx.log(f"{len(jobs)} histories to record under strace")
     try:
         outs, driver = record_and_judge(ctx, jobs, torn=2 if q else 6, reader_every=1, tag="a",
@@ -175,6 +179,7 @@ def judge_crash_outputs(ctx: Ctx, jobs, outs, driver, prop_preds=("C06", "R06"))
     ctx.cov["crash_points_inside_writes"] = n_torn
     ctx.cov["projected_states_judged_by_tlc"] = len(states)
     ctx.cov["real_reader_runs_on_crash_states"] = sum(1 for s in states if "readback" in s)
+    ctx.cov["recovery_sessions_on_crash_states"] = sum(outs[gj].get("n_recovered", 0) for gj in range(len(jobs)))
     ctx.log(f"{len(jobs)} recorded histories: {n_eff} crash points between effects + {n_torn} torn-write points; "
             f"{len(states)} projected states judged by TLC, {n_false} predicate failures")
     if states:
